@@ -28,6 +28,7 @@ type vDB struct {
 	flusherExited bool
 	compactorExited bool
 	withCompactor bool
+	inBackground bool
 	flushErr error
 	ref      []*vRef
 	sched    int
@@ -65,6 +66,22 @@ func (h *vDB) open(opts ...ExtraOption) error {
 }
 
 // runPending is the flusher goroutine's loop body for the action it has received.
+// enableSyncScheduling: a pending background flush may complete at any synchronisation operation (lock, unlock,
+// channel send) of a client call, not only between calls.
+func (h *vDB) enableSyncScheduling() {
+	h.autoSched = true
+	vrt.OnSync(func(kind string) {
+		if h.inBackground || h.pending == nil || !h.autoSched {
+			return
+		}
+		h.sched++
+		if vrt.Choose(vrt.K("sync", h.sched), 2) == 1 {
+			vrt.Reach("db/flush-completes-inside-a-client-call")
+			h.runPending()
+		}
+	})
+}
+
 func (h *vDB) runPending() {
 	if !vrt.Symbolic() {
 		vrt.WaitGoroutineIdle("simpledb.flushMemstoreContinuously")
@@ -75,12 +92,16 @@ func (h *vDB) runPending() {
 	}
 	a := *h.pending
 	h.pending = nil
-	if err := executeFlush(h.db, a); err != nil {
-		vrt.Note("executeFlush: " + err.Error())
-		// flushMemstoreContinuously: log.Panicf ⇒ the process stops
-		h.flushErr = err
-		vrt.Fail("db/flush-cycle-never-fails")
-	}
+	h.inBackground = true
+	defer func() { h.inBackground = false }()
+	vrt.RunAs(1, func() {
+		if err := executeFlush(h.db, a); err != nil {
+			vrt.Note("executeFlush: " + err.Error())
+			// flushMemstoreContinuously: log.Panicf ⇒ the process stops
+			h.flushErr = err
+			vrt.Fail("db/flush-cycle-never-fails")
+		}
+	})
 }
 
 // onBlock is called when the client thread cannot go on: the flusher goroutine gets to run.
@@ -167,6 +188,12 @@ func (h *vDB) compactionCycle() {
 	if !vrt.Symbolic() {
 		vrt.WaitGoroutineIdle("simpledb.flushMemstoreContinuously")
 	}
+	h.inBackground = true
+	defer func() { h.inBackground = false }()
+	vrt.RunAs(2, func() { h.compactionCycleBody() })
+}
+
+func (h *vDB) compactionCycleBody() {
 	meta, err := executeCompaction(h.db)
 	if err != nil {
 		vrt.Note("executeCompaction: " + err.Error())
@@ -179,9 +206,11 @@ func (h *vDB) compactionCycle() {
 	h.cycles++
 	vrt.Reach("db/compaction-ran")
 	oldest := ""
+	h.db.sstableManager.managerLock.RLock()
 	if rs := h.db.sstableManager.allSSTableReaders; len(rs) > 0 {
 		oldest = rs[0].BasePath()
 	}
+	h.db.sstableManager.managerLock.RUnlock()
 	if !strings.HasSuffix(oldest, meta.ReplacementPath) {
 		vrt.Tag("compaction-excludes-oldest-table")
 		vrt.Reach("db/compaction-excludes-oldest-table")
